@@ -183,6 +183,9 @@ func runCheck(o checkOpts) int {
 	exit := 0
 	violations := 0
 	replayDir := filepath.Join(o.verifDir, "replay", "out")
+	if d := os.Getenv("GOVC_EVIDENCE_DIR"); d != "" {
+		replayDir = filepath.Join(d, "replay")
+	}
 	os.MkdirAll(replayDir, 0o755)
 
 	// known findings: replay the witness on the real code
@@ -306,9 +309,13 @@ func runCheck(o checkOpts) int {
 		"per_obligation_timeout_s": timeout,
 	}
 	ev := evidence{PropertyID: o.id, Tier: o.tier, Seed: o.seed, Level: "proof", Coverage: cov, Assumptions: tb, WallS: time.Since(t0).Seconds(), Violations: violations}
-	os.MkdirAll(filepath.Join(o.verifDir, "evidence"), 0o755)
+	evDir := filepath.Join(o.verifDir, "evidence")
+	if d := os.Getenv("GOVC_EVIDENCE_DIR"); d != "" {
+		evDir = d // experiments on modified trees must not overwrite the committed evidence
+	}
+	os.MkdirAll(evDir, 0o755)
 	data, _ := json.MarshalIndent(ev, "", " ")
-	os.WriteFile(filepath.Join(o.verifDir, "evidence", o.id+".json"), data, 0o644)
+	os.WriteFile(filepath.Join(evDir, o.id+".json"), data, 0o644)
 	fmt.Printf("%s %s: %d proof obligations, %d discharged; %d bounded stand-ins, %d passed; %d violations, %d engine errors, %.1fs\n", o.id, o.tier, len(obs)-nBounded, discharged, nBounded, okBounded, violations, len(engineErrs), time.Since(t0).Seconds())
 	return exit
 }
